@@ -58,10 +58,9 @@ func c20Spec() *core.Spec {
 		}
 	}
 	s.Nodes[first] = n
+	// (a third node - even one that is only absent or terminal - did not finish in 10 minutes in the thorough
+	// tier: both tiers explore the same space)
 	extra := []string{"a"}
-	if verif.Tier() > 0 {
-		extra = []string{"a", "b"}
-	}
 	for _, name := range extra {
 		kinds := 5
 		if name == "b" {
